@@ -42,11 +42,12 @@ CHECKS = {
               'side obtained by mechanically differentiating the value specification: error models and population models (P-inf in the '
               'number of observations / individuals / dimensions), LogLikelihood.evaluateS1 (gradient assembly over outputs, all time-grid '
               'order types), LogPosterior.evaluateS1, HierarchicalLogLikelihood / HierarchicalLogPosterior.evaluateS1 (chain rule through '
-              'pooled, heterogeneous, non-centred and covariate dimensions for all compositions of C02).  Same-score and finiteness-path '
-              'obligations included.'),
+              'pooled, heterogeneous, non-centred and covariate dimensions for all compositions of C02), and LogLikelihood with every mask of '
+              'fixed parameters (the gradient is the free sub-vector of the full gradient, also when every error parameter of an output is fixed).  '
+              'Same-score and finiteness-path obligations included.'),
         design_ref='DESIGN.md section 4 (C03)',
         note=('As C01, C02, C04, C05 (this check re-runs their gradient obligations); mechanistic-model sensitivities assumed (external solver); '
-              'fixed-parameter gradients are covered under C08.'),
+              'the fixed-parameter gradients are the owner obligation of C08, re-run here.'),
         technique='contract-based deductive verification: symbolic execution + mechanically differentiated specifications + Sigma-normal-form/cancel + z3',
     ),
     'C04': dict(
@@ -62,7 +63,8 @@ CHECKS = {
         note=('Floats are mathematical reals (IEEE nan/inf arithmetic outside the proof); the symbolic numpy model of pvc/tensor.py '
               '(conformance-checked on every run, not proved); sympy, z3; canonical Normal/LogNormal density tables '
               '(normalisation re-derived by sympy integration).  Precondition: per-observation standard deviation > 0 '
-              '(outputs > 0 for the multiplicative and log-normal models).'),
+              '(outputs > 0 for the multiplicative and log-normal models; outputs of either sign otherwise, also in the witness search).  The IEEE '
+              'range is outside real arithmetic: vectors of 400 observations with outputs of magnitude 1e3 / 1e-3 are part of the bounded run-time contract.'),
         technique='contract-based deductive verification: symbolic execution of the real function bodies + Sigma-normal-form/z3 discharge of postconditions',
     ),
     'C05': dict(
@@ -109,7 +111,8 @@ CHECKS = {
               'states, unselected entries unchanged; the sensitivities w.r.t. vartheta_0 and beta equal the mechanically derived '
               'derivatives; names stay aligned after set_dim_names; the covariate sampler is proved (ghost RNG) to draw row i from the '
               'wrapped model at vartheta_i.  Delegation of likelihood, sensitivities and the individual-parameter transform to the wrapped '
-              'model per individual is proved end to end in C02/C03 (covariate-dependent sub-models in hierarchical likelihoods).'),
+              'model per individual is proved end to end in C02/C03 (covariate-dependent sub-models in hierarchical likelihoods).  Exactly-zero effects '
+              'and covariates (value-dependent corner cases a generic symbolic vector does not hit) are a bounded run-time contract.'),
         design_ref='DESIGN.md section 4 (C07)',
         note=('Structural bounds as stated (2 individuals, values symbolic); real numpy on object arrays; ghost RNG contracts; three genuine '
               'defects found by this check were repaired (fix commits 77c1a44, cf7126d, 663fb3b).'),
@@ -154,7 +157,9 @@ CHECKS = {
         category='proof',
         text=('(a) PKPDModel.set_dosing_regimen with symbolic dose, start, duration, period and dose count installs - as the reported regimen '
               'and in the (ghost) solver - exactly one pacing event with level x duration = dose and the given start / duration / period / '
-              'multiplier (all None-patterns, direct and indirect route; explicit protocols installed as is); (b) set_administration changes '
+              'multiplier (all None-patterns, direct and indirect route; explicit protocols installed as is), and the same through every wrapper that '
+              'forwards the call (ReducedMechanisticModel, PredictiveModel with and without fixed mechanistic parameters, PopulationPredictiveModel); '
+              '(b) set_administration changes '
               'the model equations exactly as specified (direct: d amount/dt = old + dose rate bound to the pacing variable; indirect: '
               'first-order depot; no other equation changed) on every library model with a central compartment and generated 1-3 state '
               'models, as sympy identities on the real myokit objects; (c) lemma: every scheduled event injects exactly its dose; '
@@ -195,7 +200,8 @@ CHECKS = {
               'documented density with the documented empirical estimators as a 0/1-weighted sum over measurements (numpy.ma semantics for '
               'missing values), and its mechanically derived derivative with respect to every simulated measurement.  Missing-value padding '
               'and permutation invariance are corollaries of that weighted-sum form.  Time re-ordering (sort_times) and the composed filter '
-              'are verified for every permutation of up to 4 time points over up to 3 stub sub-filters (values symbolic).'),
+              'are verified for every permutation of up to 4 time points over up to 3 stub sub-filters (values symbolic).  The IEEE range (a measurement '
+              'hundreds of nats worse than the others, with and without missing-value padding) is a bounded run-time contract for the kernel / mixture filters.'),
         design_ref='DESIGN.md section 4 (C12)',
         note=('Floats as reals; numpy.ma modelled by 0/1 weights under the precondition of at least one value per cell; symbolic numpy model '
               'conformance-checked with NaN patterns on every run; np.max inside logsumexp opaque (nothing assumed); sympy/z3.  Two genuine '
